@@ -4,10 +4,10 @@ The change is applied in the agent's own scratch worktree and the checks are poi
 (so /repo is never touched while background runs use it). Results -> /tmp/wt/results.json"""
 import glob, json, os, re, subprocess, sys
 
-RELATED = {"C01": ["C01", "C07"], "C02": ["C02"], "C03": ["C03"], "C04": ["C04", "C07"], "C05": ["C05"], "C06": ["C06", "C09"],
-           "C07": ["C07", "C04", "C11"], "C08": ["C08", "C16", "C10"], "C09": ["C09", "C06", "C08", "C10", "C14", "C18"], "C10": ["C10", "C08", "C09"],
-           "C11": ["C11", "C12"], "C12": ["C12", "C11"], "C13": ["C13", "C19"], "C14": ["C14"], "C15": ["C15"], "C16": ["C16", "C08"],
-           "C17": ["C17", "C19"], "C18": ["C18"], "C19": ["C19", "C13", "C17"], "C20": ["C20", "C12"]}
+RELATED = {"C01": ["C01", "C07"], "C02": ["C02"], "C03": ["C03"], "C04": ["C04", "C07", "C14"], "C05": ["C05", "C14"], "C06": ["C06", "C09"],
+           "C07": ["C07", "C04", "C11"], "C08": ["C08", "C16", "C10"], "C09": ["C09", "C06", "C08", "C10", "C14", "C18"], "C10": ["C10", "C08", "C09", "C14"],
+           "C11": ["C11", "C12"], "C12": ["C12", "C11"], "C13": ["C13", "C19", "C14"], "C14": ["C14"], "C15": ["C15", "C14"], "C16": ["C16", "C08"],
+           "C17": ["C17", "C19"], "C18": ["C18"], "C19": ["C19", "C13", "C17", "C14"], "C20": ["C20", "C12"]}
 RES = os.environ.get("SEEDRES", "/tmp/wt/results.json")
 results = json.load(open(RES)) if os.path.exists(RES) else {}
 only = sys.argv[1:]
